@@ -24,12 +24,33 @@ Definition sres_eqb (a b : sres) : bool :=
 
 Record c10case := mk10 { c10steps : list (sop * sres) }.
 
+(* Closing a watcher: the harness closes the stream and reads it to its end.  Go's select may still
+   hand over events that were pending when Close landed (the pump chooses at random between a ready
+   consumer and the done channel), so what is read after Close must be a prefix of what was pending;
+   the model's own result (ROk, everything pending discarded) is the empty prefix. *)
+Fixpoint is_prefix {A} (f : A -> A -> bool) (l l' : list A) : bool :=
+  match l, l' with
+  | [], _ => true
+  | a :: t, b :: t' => f a b && is_prefix f t t'
+  | _ :: _, [] => false
+  end.
+
+Definition step_ok (st : sstate) (op : sop) (r ob : sres) : bool :=
+  match op, ob with
+  | SCloseWatch i, REvents l' =>
+      match nth_error (streams st) i with
+      | Some w => is_prefix event_eqb l' (wevents w)
+      | None => match l' with [] => true | _ => false end
+      end
+  | _, _ => sres_eqb r ob
+  end.
+
 Fixpoint c10run (st : sstate) (steps : list (sop * sres)) : bool :=
   match steps with
   | [] => true
   | (op, ob) :: rest =>
       let '(st', r) := s_step st op in
-      sres_eqb r ob && c10run st' rest
+      step_ok st op r ob && c10run st' rest
   end.
 
 Definition c10ok (c : c10case) : bool := c10run st_init (c10steps c).
@@ -40,5 +61,5 @@ Fixpoint c10first (st : sstate) (steps : list (sop * sres)) (i : nat) : option (
   | [] => None
   | (op, ob) :: rest =>
       let '(st', r) := s_step st op in
-      if sres_eqb r ob then c10first st' rest (S i) else Some (i, r)
+      if step_ok st op r ob then c10first st' rest (S i) else Some (i, r)
   end.
